@@ -126,7 +126,18 @@ def systematic_real_reload(tier):
     res = []
     for first, second in ((N + 'h1', A + 'h-'), (A + 'h-', A + 'h-')):
         base = 'pre: new 20 %sh- , newr 21 %sh- , newr 22 %sh- | hit 0 , rl 21 %s | rl 22 %s' % (N, N, N, first, second)
-        res += [base + ' ;; ' + sch for sch in _c04.preemption_schedules(2, [12, 5], 1 if tier == 'quick' else 2)]
+        res += [base + ' ;; ' + sch for sch in _c04.preemption_schedules(2, [13, 5], 1 if tier == 'quick' else 2)]
+    return res
+
+def systematic_racing_emission(tier):
+    """an emission from an already registered callsite (cached `sometimes`, so the filter is asked) while another thread is
+    INSIDE the write-locked section of a reload whose old and new value both accept it: it must be delivered (judged entirely by
+    the old or entirely by the new value) — every schedule with at most 2 (thorough: 3) preemptions"""
+    N = 'n' * 30; T = 't' + 'n' * 29
+    res = []
+    for new in (T + 'h-', T + 'h3'):
+        base = 'pre: new 20 %sh- , newr 21 %sh- | rlb 21 %s | @21 hit 0 , hit 0 , hit 0' % (N, T, new)
+        res += [base + ' ;; ' + sch for sch in _c04.preemption_schedules(2, [6, 11], 2 if tier == 'quick' else 3)]
     return res
 
 def extra(tier, seed, rng, res, broken):
@@ -135,7 +146,7 @@ def extra(tier, seed, rng, res, broken):
     n = 60 if (tier == 'quick' and not broken) else 600
     deep = 'quick' if (tier == 'quick' and not broken) else 'thorough'
     cases = M.corpus_cases('C12', 'race') + [_c04.gen_scenario(rng, force_mut=True) for _ in range(n)] + \
-            [gen_real_reload(rng) for _ in range(n // 2)] + systematic_real_reload(deep)
+            [gen_real_reload(rng) for _ in range(n // 2)] + systematic_real_reload(deep) + systematic_racing_emission(deep)
     outs, err = M.run_per_process([M.bin_path('h_race')], cases, timeout=30)
     if err:
         res.errors.append('race stream: %s' % err); return
@@ -149,7 +160,7 @@ def extra(tier, seed, rng, res, broken):
         res.hist[k] = res.hist.get(k, 0) + 1
         if ('mutated' in o or 'modify:unlocked' in o) and 'register:computed' in o: res.nontrivial.add('race ' + c)
         if v != 'ok':
-            (hard if ('stranded' in v or 'DEADLOCK' in v or 'PANIC' in v or 'wrong-delivery' in v) else soft).append(('race', c, o, 'judge ' + v))
+            (hard if ('stranded' in v or 'DEADLOCK' in v or 'PANIC' in v or 'wrong-delivery' in v or 'lost-delivery' in v) else soft).append(('race', c, o, 'judge ' + v))
     res.spec_failures.extend(hard if hard else soft)
 
 _s = Stream('hist', 'h_reload', gen=gen, per_process=True, nontrivial=nontrivial, spec_mode='spec')
